@@ -60,8 +60,18 @@ DIFFERENT key map, yields exactly what the plain key function yields on the OUTE
 parameter — whatever the inner type, its rule and the inner map are. -/
 theorem nested_route_is_transparent (R : Rules) (d : Dir) (t k tB : String) (inner : KVs) (fp : FParam)
     (hl : R.lookup t = some (.nest k tB inner)) :
-    doRoute R d t fp = (applyKey k fp).getD "" := by
+    doRoute R d t fp = (applyKey k "" fp).getD "" := by
   simp [doRoute, hl, applyBeh]
+
+/-- **an empty key map is a key map, not "no parameter"**: on `map[string]interface{}{}`
+(or a nil map) a function with a default instance answers that default, and a nil-aware
+function does NOT take its nil branch — it answers as on any map lacking the key. -/
+theorem empty_map_is_a_map (R : Rules) (d : Dir) (t : String) :
+    (∀ k dflt, R.lookup t = some (.keyd k dflt) → route R d t (.map []) = dflt) ∧
+    (∀ nn k, R.lookup t = some (.nilor nn k) → route R d t (.map []) = "" ∧ route R d t .nil = nn) := by
+  constructor
+  · intro k dflt hl; simp [route, doRoute, hl, applyBeh, applyKey, getKey]
+  · intro nn k hl; simp [route, doRoute, hl, applyBeh, applyKey, getKey]
 
 /-- …so such a rule names the instance under the OUTER parameter's key and the request goes there. -/
 theorem nested_routed_by_outer_key (R : Rules) (d : Dir) (hd : d.Ok) (r t a m k tB : String) (inner l : KVs)
@@ -69,7 +79,7 @@ theorem nested_routed_by_outer_key (R : Rules) (d : Dir) (hd : d.Ok) (r t a m k 
     (hl : R.lookup t = some (.nest k tB inner)) (hp : p.kvs? = some l) (hk : getKey l k = some (.str n))
     (hne : n ≠ "") (hkn : Known d.ms n) :
     ∃ pid, Named d.ms n pid ∧ request R d r p cb = ⟨[⟨pid, a ++ "." ++ m, true⟩], [], cb⟩ := by
-  obtain ⟨pid, hN, h1, _⟩ := (routed_to_named R d hd r t a m p n cb hr (.key hl rfl hp hk) hne).1 hkn
+  obtain ⟨pid, hN, h1, _⟩ := (routed_to_named R d hd r t a m p n cb hr (.key (dflt := "") hl rfl hp hk) hne).1 hkn
   exact ⟨pid, hN, h1⟩
 
 /-- …and when instance names are unique in the view (the normal configuration), the
@@ -290,7 +300,7 @@ theorem d1_no_sentinels : NoSentinelNames d1.ms :=
   ⟨not_known_of_lookup_none d1 d1_ok _ (by decide), not_known_of_lookup_none d1 d1_ok _ (by decide),
    not_known_of_lookup_none d1 d1_ok _ (by decide)⟩
 theorem names0 : RuleNames R0 "chat" p0 "c2" :=
-  .key (l := [("chatid", .str "c2")]) (b := .key "chatid") (k := "chatid") rfl rfl rfl (by decide)
+  .key (l := [("chatid", .str "c2")]) (b := .key "chatid") (k := "chatid") (dflt := "") rfl rfl rfl (by decide)
 theorem known0 : Known d0.ms "c2" := ⟨_, known_of_lookup_some d0 d0_ok "c2" ("h2:2", "c2") (by decide)⟩
 /-- every name is unique in the one-node view -/
 theorem d1_unique (n : String) : UniqueName d1.ms n := by
@@ -317,6 +327,13 @@ example := nested_routed_by_outer_key ⟨[("chat", .nest "chatid" "gate" [("chat
   (by decide) rfl rfl (by decide) (by decide) known0
 example : request ⟨[("chat", .nest "chatid" "gate" [("chatid", .str "c1")])], true⟩ d0 "chat.remote.say" p0 true
     = ⟨[⟨("h2:2", "c2"), "remote" ++ "." ++ "say", true⟩], [], true⟩ := by decide
+-- a default instance on an empty key map: the rule names the default, which the view announces
+example := (routed_to_named ⟨[("chat", .keyd "chatid" "c2")], true⟩ d0 d0_ok "chat.remote.say" "chat" "remote" "say" (.map []) "c2" true
+  (by decide) (.keyDefault (l := []) (b := .keyd "chatid" "c2") (k := "chatid") rfl rfl rfl rfl) (by decide)).1 known0
+example : request ⟨[("chat", .keyd "chatid" "c2")], true⟩ d0 "chat.remote.say" (.map []) true
+    = ⟨[⟨("h2:2", "c2"), "remote" ++ "." ++ "say", true⟩], [], true⟩ := by decide
+example : request ⟨[("chat", .nilor "c2" "chatid")], true⟩ d0 "chat.remote.say" (.map []) true = refused true := by decide
+example := (empty_map_is_a_map ⟨[("chat", .keyd "chatid" "c2")], true⟩ d0 "chat").1 "chatid" "c2" rfl
 -- an explicit name, unique in the view
 example := routed_to_the_instance ⟨[], true⟩ d1 d1_ok "x.sys.kick" "x" "sys" "kick" (.str "g1") "g1" true ("h1:1", "g1")
   (by decide) (.explicit "g1") (by decide) (known_of_lookup_some d1 d1_ok "g1" _ (by decide)) (d1_unique "g1")
@@ -324,7 +341,7 @@ example := never_dropped_never_unannounced R0 d0 d0_ok "chat.remote.say" p0 true
 -- failing rules: unknown name, panicking function, non-string value, absent key, bad parameter, no working instance
 example := no_instance_no_send_one_callback R0 d0 d0_ok "chat.remote.say" "chat" "remote" "say" (.map [("chatid", .str "c9")]) true
   (by decide) ms0_no_sentinels
-  (.unknownName (n := "c9") (.key (l := [("chatid", .str "c9")]) (b := .key "chatid") (k := "chatid") rfl rfl rfl (by decide))
+  (.unknownName (n := "c9") (.key (l := [("chatid", .str "c9")]) (b := .key "chatid") (k := "chatid") (dflt := "") rfl rfl rfl (by decide))
     (not_known_of_lookup_none d0 d0_ok _ (by decide)))
 example : RuleFails R0 ms0 "scene" .nil := .funcPanics (fp := .nilIface) (b := .panic) rfl rfl rfl
 example : RuleFails R0 ms0 "chat" (.sess [("chatid", .other)]) :=
